@@ -136,8 +136,37 @@ pub fn run(thorough: bool, seed: u64, _replay: Option<String>) -> Report {
             let same_order_scores = parsed.iter().map(|x| x.1).collect::<Vec<_>>() == real_s.iter().map(|x| x.1).collect::<Vec<_>>();
             key(&mut want);
             key(&mut got);
-            if want != got || !same_order_scores || (real_s.len() <= 20 && parsed != real_s) {
+            // (exact since the small-element sort of std is modelled: also above 20 entries)
+            if want != got || !same_order_scores || parsed != real_s {
                 rep.fail("t3", "C19:coherence-loop-model-disagrees", &format!("thr {} layers [{}]: impl {:?} || model {}", thr, show_layers(&layers), real_s, model), text.as_bytes(), None, "coh");
+            }
+        }
+        // ---- T3: the whole of coherence_ratio (alpha_unicode_split, most common characters,
+        //      alphabet_languages, jaro, loop, filter, sort) from the text alone
+        {
+            let mut chars: std::collections::BTreeSet<char> = text.chars().collect();
+            let lowered: Vec<char> = chars.iter().flat_map(|c| c.to_lowercase()).collect();
+            chars.extend(lowered);
+            let env: Vec<String> = chars
+                .iter()
+                .map(|c| {
+                    format!(
+                        "{}:{}:{}:{}",
+                        *c as u32,
+                        c.is_alphabetic() as u8,
+                        vh::is_accentuated(*c) as u8,
+                        c.to_lowercase().map(|x| (x as u32).to_string()).collect::<Vec<_>>().join(".")
+                    )
+                })
+                .collect();
+            let incl = if include.is_empty() { "-".to_string() } else { include.iter().map(|l| format!("{}", l)).collect::<Vec<_>>().join(",") };
+            let line = format!("cohfull {} {} {} {}", fbits(thr), if text.is_empty() { "-".to_string() } else { hex(text.as_bytes()) }, incl, if env.is_empty() { "-".to_string() } else { env.join(",") });
+            let model = drv.ask(&line);
+            rep.t3_compared += 1;
+            rep.count("t3:coherence-ratio-full");
+            let real_full = if real_s.is_empty() { "ok -".to_string() } else { format!("ok {}", real_s.iter().map(|(n, s)| format!("{}={}", n, s)).collect::<Vec<_>>().join(",")) };
+            if model.trim_end() != real_full {
+                rep.fail("t3", "C19:coherence-ratio-model-disagrees", &format!("thr {} include [{}]: impl {} || model {}", thr, incl, real_full, model), text.as_bytes(), None, "cohfull");
             }
         }
         // ---- oracle on detection: single chunk, encoding probed alone, threshold sweep
